@@ -164,3 +164,11 @@ def shrink(c):
         yield dict(c, date=[0, c["date"][1], c["date"][2]])
         yield dict(c, date=[c["date"][0], 0, c["date"][2]])
         yield dict(c, date=[c["date"][0], c["date"][1], b"+0000".hex()])
+
+
+# functions of /repo whose executed-line coverage by this run is reported in the evidence
+ANCHORS = [('swh/model/git_objects.py', 'release_git_object'),
+           ('swh/model/git_objects.py', 'target_type_to_git'),
+           ('swh/model/git_objects.py', 'format_author_data'),
+           ('swh/model/git_objects.py', 'format_git_object_from_headers'),
+           ('swh/model/model.py', 'Release.check_author')]
